@@ -135,10 +135,11 @@ theorem mem_join_left (a b : Str) (x : Char) (hb : isAbs b = false) (h : x ∈ a
 
 /-- **NUL bytes.**  `os.stat` raises ValueError for a path with an embedded NUL, `serve_file` turns
     that into NotFound: for every file-system function that answers "missing" for such paths, a
-    request whose decoded branch contains NUL is never served (403 or 404, test_null_bytes). -/
+    request whose tested (normalised) file name contains NUL is never served (403 or 404,
+    test_null_bytes). -/
 theorem static_nul_never_served (unq : Str → Str) (fs : Str → Kind) (i : StaticIn)
     (hfs : ∀ p, Char.ofNat 0 ∈ p → fs p = .missing) (hix : isAbs i.index = false)
-    (hnul : Char.ofNat 0 ∈ staticBranch unq i) :
+    (hnul : ∀ dir, staticDir i = some dir → Char.ofNat 0 ∈ normpath (join dir (staticBranch unq i))) :
     ∀ p, (staticdir unq fs i).outcome ≠ .served p := by
   intro p
   unfold staticdir
@@ -148,32 +149,38 @@ theorem static_nul_never_served (unq : Str → Str) (fs : Str → Kind) (i : Sta
     · simp
     · split
       · simp
-      · rename_i dir _
+      · rename_i dir hd
         dsimp only
         split
         · simp
-        · have hf : Char.ofNat 0 ∈ join dir (staticBranch unq i) := mem_join_right _ _ _ hnul
-          have hfi : Char.ofNat 0 ∈ join (join dir (staticBranch unq i)) i.index :=
+        · have hn := hnul dir hd
+          have hf : Char.ofNat 0 ∈ staticTarget (join dir (staticBranch unq i)) := by
+            unfold staticTarget
+            split
+            · exact List.mem_append_left _ hn
+            · exact hn
+          have hfi : Char.ofNat 0 ∈ join (staticTarget (join dir (staticBranch unq i))) i.index :=
             mem_join_left _ _ _ hix hf
-          have a1 : ∀ acc, attempt fs (join dir (staticBranch unq i)) ≠ .served acc := by
+          have a1 : ∀ acc, attempt fs (staticTarget (join dir (staticBranch unq i))) ≠ .served acc := by
             intro acc; unfold attempt; rw [hfs _ hf]; split <;> simp
-          have a2 : ∀ acc, attempt fs (join (join dir (staticBranch unq i)) i.index) ≠ .served acc := by
+          have a2 : ∀ acc, attempt fs (join (staticTarget (join dir (staticBranch unq i))) i.index) ≠
+              .served acc := by
             intro acc; unfold attempt; rw [hfs _ hfi]; split <;> simp
           unfold serveChecked
-          cases h1 : attempt fs (join dir (staticBranch unq i)) with
+          cases h1 : attempt fs (staticTarget (join dir (staticBranch unq i))) with
           | valueError => simp
           | served acc => exact absurd h1 (a1 acc)
           | notFound acc =>
             by_cases hi : i.index = []
             · simp [hi]
             · simp only [hi, if_false]
-              cases h2 : attempt fs (join (join dir (staticBranch unq i)) i.index) with
+              cases h2 : attempt fs (join (staticTarget (join dir (staticBranch unq i))) i.index) with
               | valueError => simp
               | served acc2 => exact absurd h2 (a2 acc2)
               | notFound acc2 => simp
 
-example : Char.ofNat 0 ∈ staticBranch unquote ⟨strGET, true, "/static".toList, "/t/root".toList, [], [],
-    "/static/f.txt%00.html".toList⟩ := by decide
+example : Char.ofNat 0 ∈ normpath (join "/t/root".toList (staticBranch unquote ⟨strGET, true, "/static".toList,
+    "/t/root".toList, [], [], "/static/f.txt%00.html".toList⟩)) := by decide
 
 /-! ### static.staticfile -/
 
@@ -252,7 +259,7 @@ theorem C11_len_contained (cwd storage : Str) (hcwd : isAbs cwd = true) :
 /-- A session id without `/` - every other character allowed: NUL, newline, backslash, `;`, `%`,
     non-ASCII - names exactly one entry of the storage directory. -/
 theorem session_id_noslash_one_below (X id : Str) (hX : isAbs X = true) (hns : '/' ∉ id) :
-    components (normpath (sessionFile (normpath X) id)) =
+    components (normpath (sessionFileRaw (normpath X) id)) =
       components (normpath X) ++ [sessionPrefix ++ id] := by
   have hsp : isAbs (normpath X) = true := normpath_abs_isAbs X hX
   have hname : '/' ∉ sessionPrefix ++ id := by
